@@ -77,6 +77,38 @@ def import_probe(ctx):
             ctx.extra.setdefault("imports_blocked_by_missing_data", []).append({"module": mod, "error": last[:200]})
 
 
+def plugin_probe(ctx):
+    """Import-time clause with the documented plug-in configuration: a non-empty ./pyrex-custom and
+    ~/.pyrex-custom (pyrex/__init__.py scans them at import; with no plug-in directory that loop body
+    never runs, so the plain import probe cannot see a bad name inside it)."""
+    base = os.path.join(ctx.scratch, "plugins")
+    home, cwd = os.path.join(base, "home"), os.path.join(base, "cwd")
+    for root, plug, mod in ((os.path.join(home, ".pyrex-custom"), "global-plug", "verif_global_plugin"),
+                            (os.path.join(cwd, "pyrex-custom"), "local-plug", "verif_local_plugin")):
+        d = os.path.join(root, plug, "custom")
+        os.makedirs(d, exist_ok=True)
+        open(os.path.join(d, mod + ".py"), "w").write("MARKER = %r\n" % mod)
+        open(os.path.join(root, "stray_file.txt"), "w").write("not a directory\n")
+    code = ("import traceback\n"
+            "try:\n"
+            "    import pyrex\n"
+            "    import pyrex.custom.verif_global_plugin as g, pyrex.custom.verif_local_plugin as l\n"
+            "    assert g.MARKER == 'verif_global_plugin' and l.MARKER == 'verif_local_plugin'\n"
+            "    import pyrex.custom.layered_ice\n"
+            "    print('OK')\n"
+            "except BaseException as e:\n"
+            "    tb = traceback.extract_tb(e.__traceback__)\n"
+            "    print('EXC', type(e).__name__, '|', str(e)[:300].replace('\\n',' '), '|', tb[-1].filename, tb[-1].lineno)\n")
+    env = dict(os.environ, HOME=home)
+    rc, out = common.sh([sys.executable, "-W", "ignore", "-c", code], env=env, cwd=cwd, timeout=300)
+    last = [l for l in out.strip().split("\n") if l.startswith(("OK", "EXC"))]
+    last = last[-1] if last else "EXC Unknown | %s" % out[-300:]
+    ctx.case(key=("import-with-plugins",), sample={"import": "pyrex with ~/.pyrex-custom and ./pyrex-custom plug-ins", "result": last[:200]})
+    if not last.startswith("OK"):
+        ctx.fail("import-plugins:" + last[4:120], "import pyrex with the documented plug-in directories present fails: %s" % last,
+                 {"kind": "import_plugins", "result": last})
+
+
 def run(ctx):
     ctx.rule = ("every dotted reference (import alias + attribute chain, from-import names) into numpy/scipy/h5py/"
                 "stdlib/pyrex in every .py under pyrex/ is enumerated by tools/refs.py and resolved inside Coq against "
@@ -139,6 +171,7 @@ def run(ctx):
             ctx.fail("undeclared:" + u[0], "module %s imported at %s is neither stdlib, declared nor a guarded documented optional" % tuple(u),
                      {"kind": "undeclared", "module": u[0], "loc": u[1]})
     import_probe(ctx)
+    plugin_probe(ctx)
 
 
 def _restricted():
@@ -161,6 +194,10 @@ def replay(ctx, obj):
         good, why = py_resolve(obj["chain"])
         print("reference %s (%s): %s" % (obj["chain"], obj.get("loc"), "resolves" if good else "FAILS: " + why))
         return 0 if good else 1
+    if obj.get("kind") == "import_plugins":
+        plugin_probe(ctx)
+        print("failures:", [f["what"] for f in ctx.failures] or "none")
+        return 1 if ctx.failures else 0
     if obj.get("kind") == "import":
         rc, out = common.sh([sys.executable, "-c", "import %s" % obj["module"]])
         print(out[-800:] or "import ok")
